@@ -62,8 +62,10 @@ CHECKS = {
               "by TLC are realised on the real sampler (injecting kernel helper, scripted shuffle, uniforms placed with nextafter) "
               "on the in-memory, object-cache and file paths and must return the specification's rows; those runs and seeded "
               "random pass-through histories (libraries to 200/2000 rows, random batching, shuffled task execution) are validated "
-              "event by event by the SamplerTrace monitor (evaluated rows, the single parent uniform draw, exp(ll-max) > u, "
-              "front truncation, bit-identical nonlinear parameters)."),
+              "event by event by the SamplerTrace monitor (evaluated rows - library order, or any order of distinct rows with "
+              "randomize_prior_order -, one uniform variate per evaluated sample however many calls deliver them, exp(ll-max) > u, "
+              "front truncation, bit-identical nonlinear parameters); a third of the libraries carry a non-zero jitter stored in "
+              "m/s. thorough also validates the 98 sampler calls recorded from the repository's own test_sampler.py."),
         design_ref="DESIGN.md section 3 C02",
         note=("Trusted: TLC; numpy exp/nextafter (the ratio exp(ll-max) is computed by the harness from the recorded likelihoods "
               "and only checked for sanity by the monitor); rows identified through distinct periods; likelihood classes injected "
@@ -89,7 +91,8 @@ CHECKS = {
               "batch, after any earlier evaluations or posterior draws on the same helper, after a dill round trip - equals "
               "bit-for-bit the reference 'alone, fresh helper, in memory', that returned arrays are in input order, that draw tasks "
               "cover the accepted rows in order, and that twin calls with equal seeds accept the same rows on every path; thorough "
-              "adds real schwimmbad.MultiPool(2,3) worker processes (likelihoods adopted from return_all_logprobs)."),
+              "adds real schwimmbad.MultiPool(2,3) worker processes (likelihoods adopted from return_all_logprobs), larger PoolMC constants "
+              "(5 rows, 3 processes, 3 calls) and the sampler calls recorded from the repository's own tests."),
         design_ref="DESIGN.md section 3 C05",
         note=("Trusted: TLC; HDF5 float64 round trip (bound by C12). In worker processes evaluations are not observable; there the "
               "returned arrays are compared with the reference. randomize_prior_order twins are excluded (the in-memory path does "
@@ -104,9 +107,10 @@ CHECKS = {
               "integers (Init=>IndInv, IndInv/\\Next=>IndInv', IndInv=>Safety). Every request TLC enumerates (library size, "
               "max_prior_samples, n_requested, init_batch_size, four uniform profiles) is run on the real sampler on alternating "
               "paths; those executions and seeded random ones (libraries to 400/5000 rows, -inf likelihoods) are validated by the "
-              "SamplerTrace monitor: rows evaluated each round in order and never twice, within the budget, one uniform per "
-              "accumulated likelihood per round, acceptance by the C02 rule against the maximum of everything evaluated so far, "
-              "at most / exactly n_requested rows x n_linear_samples, JokerSamples or an exception."),
+              "SamplerTrace monitor: rows evaluated each round in order and never twice, within the budget, one uniform variate per "
+              "evaluated sample (redrawn each round or kept), acceptance by the C02 rule against the maximum of everything "
+              "evaluated so far, at most / exactly n_requested rows x n_linear_samples, JokerSamples or an exception. thorough: "
+              "N<=11, n_requested<=4, and the iterative calls recorded from the repository's own tests."),
         design_ref="DESIGN.md section 3 C14",
         note=("Trusted: TLC, Apalache, and the C02 trusted base for the rule. The growth policy is deliberately unconstrained; whether the "
               "loop stops early while budget remains is not part of the property."),
@@ -116,15 +120,18 @@ CHECKS = {
         category="model_checking",
         text=("TLC exhausts Streams (parent position, spawn counter, one child stream per task; histories of 3 calls x 3 tasks) for "
               "NoStreamReuse and OneTaskPerChild. Each recorded scenario - a history of rejection / iterative / marginal calls on the "
-              "three paths, prior samples requested by count, prior.sample - is executed three times (seed s, seed s, seed s with "
-              "numpy's and Python's global generators seeded differently); the StreamsTrace monitor requires that no parent "
-              "bit-generator state is drawn from twice, that every child generator handed to a task derives from the given "
-              "generator's entropy with a spawn key never used before in this or any earlier call, that draws come only from the "
-              "parent or announced children, that global generator states are unchanged by every call, that no linear-parameter "
-              "draw vector repeats, and that outputs are bit-identical across the three runs; thorough adds schwimmbad.MultiPool."),
+              "three paths, prior samples requested by count, prior.sample - is executed four times (seed s, seed s, seed s with "
+              "numpy's and Python's global generators seeded differently, seed s+1); the StreamsTrace monitor requires that no parent "
+              "bit-generator state is drawn from twice, that every child generator handed to a task is a stream never used before "
+              "in this or any earlier call (one per task), that draws come only from the parent or announced children, that global "
+              "generator states are unchanged by every call, that no linear-parameter draw vector repeats, that outputs are "
+              "bit-identical across the first three runs and that no linear draw of the first run re-appears under the other seed "
+              "(the randomness does come from the given generator). One scenario per run is executed in three interpreter "
+              "processes with PYTHONHASHSEED 0 / 1 / 2 and must give identical outputs; thorough adds schwimmbad.MultiPool."),
         design_ref="DESIGN.md section 3 C10",
         note=("Trusted: TLC; repr of the bit-generator state identifies a stream position; SHA-256 of returned arrays. A draw from a "
-              "foreign generator is visible only through non-reproducibility (runs A/B/G), not directly."),
+              "foreign generator is visible only through non-reproducibility (runs A/B/G/H) or seed-independence (run D), not directly. How "
+              "child streams are derived from the given generator is not judged."),
         technique="TLA+ spec (Streams) model-checked with TLC; trace validation of triple executions by total monitor",
     ),
     "C13": dict(
@@ -139,8 +146,8 @@ CHECKS = {
               "correct follow-up call on the same TheJoker. A call kind with no model action is a spec gap (exit 2)."),
         design_ref="DESIGN.md section 3 C13",
         note=("Trusted: the interposed boundary covers the calls made inside the sampling functions; os.unlink in the finally clause and "
-              "NamedTemporaryFile's own close() are not crash points; worker-process crashes are exercised in the thorough tier only "
-              "through the pool wrapper."),
+              "the temp file's own close() are not crash points. thorough: failures inside real worker processes (MultiPool forked under "
+              "the interposition; read_batch / open_file / h5py.File fail at their j-th call in a worker; Exception subclasses only)."),
         technique="TLA+ spec (SamplerFaults) model-checked with TLC to enumerate crash points; fault injection at every dynamic call; trace validation by total monitor",
     ),
     "C12": dict(
@@ -151,7 +158,8 @@ CHECKS = {
               "unsorted / repeated index arrays, random subsets; column subsets; requested units); after every step the logical "
               "content read back (per-row SHA-256 of the float64 values, row ids, columns, units, t_ref, poly_trend, n_offsets) must "
               "be an outcome the SampleFile specification allows (SampleFileTrace monitor). Seeded random histories go to 6 "
-              "operations on tables of up to 200/5000 rows and include FITS write/read."),
+              "operations on tables of up to 200/5000 rows and include FITS write/read; every history hands over its reference epochs "
+              "on one of the tcb / utc / tt / tdb scales."),
         design_ref="DESIGN.md section 3 C12",
         note=("Trusted: TLC, astropy/h5py/PyTables. An append where exactly one side has no reference epoch may be accepted or refused "
               "(the property does not define it; astropy's metadata merge treats None as unspecified). Batch values are decoded "
@@ -250,7 +258,9 @@ CHECKS = {
               "observed node's log-density and the ln_likelihood deterministic are compiled as functions of the prior's own variables "
               "and evaluated at the lattice point: the curve is compared exactly with the specification by TLC, both Gaussian terms "
               "with the certified curve; mcmc_init must be the chosen sample (median-period member for 3 / 5 rows in shuffled order) "
-              "in the prior's units; the free variables must be the prior's own objects."),
+              "in the prior's units; every parameter of the prior must be a named variable of the returned model. Half of the eligible "
+              "lattice priors are built through JokerPrior.default(sigma_v=...), uncertainties are declared in km/s or m/s "
+              "independently of the velocities."),
         design_ref="DESIGN.md section 3 C11",
         note=("On the lattice only. NOT decided: the prior term of the model's total log-density (pymc transforms / Jacobians); it is "
               "bound only structurally (the free variables are the prior's variables, whose densities are the declared ones)."),
@@ -264,8 +274,11 @@ CHECKS = {
               "theorems (draws in support, log-flatness, ratio law, cap) and enumerates the cases. Each case is replayed: "
               "UniformLogRV.rng_fn under a scripted generator, exp(logp(x)-logp(a)) projected to a/x, -inf outside the support, "
               "x ln(b/a) p(x) = 1, the sigma graph of FixedCompanionMass at lattice (P, e) with P0 in d / yr / 8 d, Beta parameters "
-              "read from the constructed variables, and for prior.sample(return_logprobs=True) ln_prior[i] - sum_p logp_p(row_i | "
-              "row_i's parents) constant over rows with every draw inside its support."),
+              "read from the constructed variables, the declared mean of the K prior {0, 3, -2} km/s (location parameter and "
+              "-2 (ln p(mu + z sigma) - ln p(mu)) = z^2), the trend / offset scales that reach the model for sigma_v declared in "
+              "km/s/d^i, m/s/d^i or km/s/yr^i, and for prior.sample(return_logprobs=True) ln_prior[i] - sum_p logp_p(row_i | "
+              "row_i's parents) constant over rows (uniform and Lognormal jitter priors) with every draw inside its support. "
+              "The draw map is accepted in either direction (a (b/a)^u or b (b/a)^-u) and through uniform() or random()."),
         design_ref="DESIGN.md section 3 C09, section 4",
         note=("NOT decided: that numpy / pytensor Beta, Normal, uniform and angle samplers produce the distribution whose parameters they "
               "are given (no statistical test is made - TLC cannot decide distributional claims); the absolute normalisation of pymc's "
